@@ -101,6 +101,9 @@ def run_scenarios(ctx: Ctx, scenarios: list) -> list:
 
 
 def run(ctx: Ctx) -> None:
+    # the synchronous API from application threads, two blocking instances, real time (props/syncapi.py, Trace_SyncApi.tla)
+    from props import syncapi
+    syncapi.run(ctx, 'C17')
     rng = random.Random(ctx.seed * 7919 + 17)
     # (the backlog must outlast any bounded wait a close might be given: 6 callbacks of 2.3 s, thorough also 8 of 2.6 s)
     sync = [{'id': 'c17-sync-0', 'sync': {'n': 6, 'cb': 2.3}}, {'id': 'c17-sync-fl', 'sync': {'n': 0, 'cb': 0, 'mode': 'foreign-loop'}}] + (
